@@ -11,7 +11,7 @@
      all_new h h' c       every container reachable from c in h' was allocated
                           after h (shares no mutable state with anything of h) *)
 From Coq Require Import List Arith.
-From V Require Import Model.Heap.
+From V Require Import Model.Heap Model.HeapApi.
 
 Definition unchanged (h h' : heap) : Prop :=
   forall l nd, get h l = Some nd -> get h' l = Some nd.
@@ -29,3 +29,13 @@ Definition values_kept (h h' : heap) : Prop :=
 
 Definition all_new (h h' : heap) (c : val) : Prop :=
   forall l, reaches h' c l -> length h <= l.
+
+(* every instance attribute of every library object on the heap has a private
+   (underscore) name: true of the empty heap, kept by every operation         *)
+Definition private_node (nd : node) : Prop :=
+  match nd with
+  | NObj _ fs => Forall (fun kv => setattr_allowed (fst kv) = true) fs
+  | _ => True
+  end.
+
+Definition private_attrs (h : heap) : Prop := Forall private_node h.
